@@ -14,7 +14,7 @@ EXPLANATION = ('Decided from MIR: (R04.1) on every return path of inverse_contin
                'interpreted over (x, p) cells: the result is congruent to x modulo 2*pi and within pi (+ cell width) of p; (R04.4) the sort '
                'comparators are partial_cmp(cost(a), cost(b)) with one cost template, cost = sum |a_i - ref_i|, weights (1-w) and w; (R04.5) the '
                'reference vector is the constraint centres exactly when previous[0] is NaN (sentinel), otherwise the caller\'s previous; '
-               '(R04.6) the unshifted solve comes first and is always taken over.  (R04.9) every constructor of Constraints stores (or hands on) the sorting weight it is given and update_range leaves it alone, so the weight the comparator reads is the one configured.  Branch tracking along trajectories is numerical and not decided.')
+               '(R04.6) the unshifted solve comes first and is always taken over.  the helper that yields the centres reads the `centers` of the limits and nothing else of them, with the all-zero vector as its default (R04.5); (R04.9) every constructor of Constraints stores (or hands on) the sorting weight it is given and update_range leaves it alone, so the weight the comparator reads is the one configured.  Branch tracking along trajectories is numerical and not decided.')
 NOT_DECIDED = 'that a trajectory followed step by step never switches branch (consequence of C02 numerics)'
 ASSUMPTIONS = ['slice::sort_by sorts ascending w.r.t. the comparator and is a permutation', 'previous joints are finite (or the NaN sentinel in slot 0)']
 TWO_PI = 2 * math.pi
@@ -348,6 +348,7 @@ def _sentinel(ctx, b, m, sref):
                 kinds['prev'] = True
             elif isinstance(val, tuple) and val[0] == 'call' and 'constraint' in val[1].lower() and nan == [True]:
                 kinds['centres'] = True
+                _centres_helper(ctx, val[1])
             else:
                 kinds['other:' + show(val, maxdepth=3)] = True
         ok = set(kinds) == {'prev', 'centres'}
@@ -366,6 +367,7 @@ def _sentinel(ctx, b, m, sref):
                 kinds['prev'] = True
             elif isinstance(val, tuple) and val[0] == 'call' and 'constraint' in val[1].lower() and nan == [True]:
                 kinds['centres'] = True
+                _centres_helper(ctx, val[1])
             else:
                 kinds['other:' + show(val, maxdepth=3)] = True
         ok = set(kinds) == {'prev', 'centres'}
@@ -710,3 +712,58 @@ def _weight_storage(ctx, prog):
             ctx.check(not wr, 'R04.9', p_.split('::')[-1] + '/weight-kept', b.where(*wr[0]) if wr else b.where(0), b.path,
                       'updating the ranges must not change the sorting weight')
     ctx.floor('R04.9 weight sites', n, 2)
+
+
+def _centres_helper(ctx, path):
+    """R04.5: the helper that yields the reference for the centred sentinel reads the centres of the limits (and nothing else of
+    them) and falls back to the all-zero vector when the robot has no limits"""
+    prog = ctx.prog
+    hb = prog.bodies.get(path)
+    done = ctx.__dict__.setdefault('_done_helpers', set())
+    if hb is None or path in done:
+        return
+    done.add(path)
+    ctx.fn(hb)
+    names = set()
+
+    def walk(x):
+        if isinstance(x, dict):
+            if x.get('k') == 'field' and (x.get('adt') or '').endswith('constraints::Constraints'):
+                names.add(x.get('name'))
+            for v in x.values():
+                if isinstance(v, (dict, list)):
+                    walk(v)
+        elif isinstance(x, list):
+            for v in x:
+                walk(v)
+    for b in [hb] + util.closure_bodies(prog, hb.path):
+        walk(b.raw.get('blocks'))
+    ctx.check(names == {'centers'}, 'R04.5', hb.path.split('::')[-1] + '/centres', hb.where(0), hb.path,
+              'the reference for the centred sentinel must be the centres of the limits', found=sorted(names), expected="['centers']")
+    zeros = False
+    for b in [hb] + util.closure_bodies(prog, hb.path):
+        for blk in b.blocks:
+            for node in blk['stmts'] + [blk.get('term') or {}]:
+                for c in _consts_in(node):
+                    nm = c.get('name')
+                    if nm and nm in prog.consts:
+                        ct = strip(prog.const_term(nm))
+                        if isinstance(ct, tuple) and ((ct[0] == 'repeat' and util.const_val(ct[1]) == 0.0) or
+                                                      (ct[0] == 'agg' and ct[1] == 'array' and all(util.const_val(e) == 0.0 for e in ct[2:]))):
+                            zeros = True
+    ctx.check(zeros, 'R04.5', hb.path.split('::')[-1] + '/default', hb.where(0), hb.path,
+              'without limits the reference for the centred sentinel must be the all-zero vector')
+
+
+def _consts_in(x):
+    out = []
+    if isinstance(x, dict):
+        if x.get('k') == 'const':
+            out.append(x)
+        for v in x.values():
+            if isinstance(v, (dict, list)):
+                out += _consts_in(v)
+    elif isinstance(x, list):
+        for v in x:
+            out += _consts_in(v)
+    return out
